@@ -78,6 +78,67 @@ def rule_guard(rep):
     rep.ob(R, "make_sincs/shape", ok, "make_sincs must return vec![vec![_; %s]; %s]" % (pn[0], pn[1]), loc(ms))
 
 
+SIMD = [("AvxInterpolator", "AvxSample", "sinc_interpolator/sinc_interpolator_avx.rs"), ("SseInterpolator", "SseSample", "sinc_interpolator/sinc_interpolator_sse.rs"),
+        ("NeonInterpolator", "NeonSample", "sinc_interpolator/sinc_interpolator_neon.rs")]
+
+
+def rule_cpu_guard(rep):
+    """Calling a #[target_feature] function on a CPU without the feature is undefined behaviour: every SIMD interpolator's constructor must refuse
+    to build unless exactly the features its kernels are compiled for are detected, and the kernels must be reachable only through it."""
+    import re
+    facts = rep.ctx.facts
+    R = "R-C03-cpu-guard"
+    # CpuFeature::is_detected maps every variant to the detection macro of the same name
+    isd = facts.need_method("CpuFeature", "is_detected", None)
+    arms = [a for x in walk(isd["body"]) if x.get("k") == "match" for a in x["arms"]]
+    for a in arms:
+        v = a["pat"]["path"].split("::")[-1] if a["pat"]["k"] == "ppath" else "?"
+        macs = [x for x in walk(a["body"]) if x.get("k") == "macro"]
+        ok = len(macs) == 1 and macs[0]["name"].split("::")[-1] in ("is_x86_feature_detected", "is_aarch64_feature_detected") and macs[0].get("args") and macs[0]["args"][0].get("v") == v.lower()
+        rep.ob(R, "CpuFeature::%s" % v, ok, "is_detected() for %s must test the CPU feature \"%s\" (found %s)" % (v, v.lower(), [show(m_) for m_ in macs]), loc(isd, a))
+    rep.ob(R, "CpuFeature/variants", len(arms) >= 4, "is_detected covers %d variants" % len(arms), loc(isd))
+    for iname, trait, rel in SIMD:
+        statics = [s for r_, s in facts.statics if r_ == rel and s["name"] == "FEATURES"]
+        if not statics:
+            rep.ob(R, "%s/FEATURES" % iname, False, "static FEATURES not found", "src/" + rel)
+            continue
+        feats = sorted(x["p"].split("::")[-1].lower() for x in walk(statics[0]["init"]) if x.get("k") == "path" and x["p"].startswith("CpuFeature::"))
+        # every unsafe kernel / packer is compiled for exactly these features
+        nfn = 0
+        for r_, im in facts.impls:
+            if r_ != rel or im.get("trait_name") != trait:
+                continue
+            for fn in im["fns"]:
+                tf = [a_ for a_ in fn.get("attrs", []) if a_.startswith("target_feature")]
+                en = sorted(re.findall(r'enable="(\w+)"', " ".join(tf)))
+                nfn += 1
+                rep.ob(R, "%s/%s::%s" % (iname, im["self_ty"], fn["name"]), fn.get("unsafe") and en == feats,
+                       "#[target_feature(enable = %s)] on an unsafe fn must match the features the constructor checks (%s)" % (en, feats), loc(fn))
+        rep.ob(R, "%s/kernels" % iname, nfn == 4, "%d target_feature functions found (2 sample types x {pack_sincs, get_sinc_interpolated_unsafe})" % nfn, "src/" + rel)
+        # the constructor's guard
+        cfn = facts.need_method(iname, "new", None)
+        st = [s for s in cfn["body"]["stmts"] if not (s["k"] in ("semi", "expr") and s["e"].get("k") == "macro" and s["e"]["name"] in ir.NOOP_MACROS)]
+        first = st[0].get("e") if st and st[0]["k"] in ("semi", "expr") else None
+        g_ok = False
+        if first is not None and first.get("k") == "if" and first["c"].get("k") == "letcond":
+            src = first["c"]["e"]
+            txt = nbit(src)
+            neg = any(x.get("k") == "un" and x["op"] == "!" and x["e"].get("k") == "mcall" and x["e"]["name"] == "is_detected" for x in walk(src))
+            ret = any(x.get("k") == "return" and x.get("e") is not None and "MissingCpuFeature" in show(x["e"]) and show(x["e"]).startswith("Err(") for x in walk(first["then"]))
+            g_ok = txt.startswith("FEATURES.iter().find(") and neg and ret
+        rep.ob(R, "%s::new/guard" % iname, g_ok, "constructor must start with `if let Some(f) = FEATURES.iter().find(|f| !f.is_detected()) { return Err(MissingCpuFeature(*f)); }`", loc(cfn),
+               sample={"interpolator": iname, "features": feats})
+    # the unsafe kernels are only called from their own interpolator module
+    for qual, fn in facts.all_fns():
+        if not fn.get("body"):
+            continue
+        for x in walk(fn["body"]):
+            if x.get("k") == "call" and is_path(x["f"]) and x["f"]["p"].split("::")[-1] in ("pack_sincs", "get_sinc_interpolated_unsafe"):
+                f_ = fn.get("_file", "")
+                owner_ok = f_.startswith("sinc_interpolator/sinc_interpolator_") and fn["name"] in ("new", "get_sinc_interpolated")
+                rep.ob(R, "caller/%s" % qual, owner_ok, "`%s` is called from %s: the target_feature kernels may only be reached through an interpolator whose constructor checked the CPU" % (show(x["f"]), qual), loc(fn, x))
+
+
 def rule_chan(rep, tname, m):
     """Channel indices used for (unchecked) per-channel access come from enumerating the mask; containers are never resized."""
     facts = rep.ctx.facts
@@ -352,6 +413,7 @@ def run(rep):
                 rule_history(rep, t, m)
         rep.guarded("R-C03-chan", one)
     rep.guarded("R-C03-validate-exact", rule_validate_exact)
+    rep.guarded("R-C03-cpu-guard", rule_cpu_guard)
     import C06
     for t in ("SincFixedOut", "FastFixedOut"):
         def prov(rep, t=t):
@@ -374,6 +436,7 @@ def run(rep):
     rep.floor("R-C03-outwrite", 18)
     rep.floor("R-C03-margin", 2 + 9 + 9)
     rep.floor("R-C03-history", 2)
+    rep.floor("R-C03-cpu-guard", 4 + 1 + 3 * (4 + 1 + 1) + 6)
     rep.floor("R-C03-alloc", 4)
     rep.floor("R-C03-validate-exact", 2)
     rep.floor("R-C03-provision", 15)
@@ -383,6 +446,7 @@ def run(rep):
     rep.floor("R-C13-order", 28)
     rep.clause("R-C03-guard", "each of the 4 kernel wrappers asserts index+length < wave.len() and subindex < nbr_sincs before its unsafe code; those fields are the dimensions given to make_sincs; sinc_len % 8 == 0 asserted")
     rep.clause("R-C03-kernel-bounds", "given the asserts, every get_unchecked / SIMD load in the 7 kernels stays inside wave[index..index+length) and the packed table")
+    rep.clause("R-C03-cpu-guard", "each SIMD interpolator refuses construction unless exactly the CPU features its #[target_feature] kernels are compiled for are detected; the kernels are reachable only through it")
     rep.clause("R-C03-chan", "per-channel (unchecked) accesses are indexed by the enumerate index of channel_mask; buffer and mask have nbr_channels entries and are never resized")
     rep.clause("R-C03-outwrite", "fixed-output: the write index is the loop variable of 0..chunk_size and chunk_size is the validated output length; fixed-input: the write index is a 0-based counter incremented once per frame")
     rep.clause("R-C03-margin", "fixed-input: loop guard idx < end_idx with end_idx = chunk − K − ceil(max step) and K ≥ kernel right reach")
